@@ -1,4 +1,4 @@
-CONSTANTS Impl = "rowcount_heuristic"
+CONSTANTS Impls = {"fixed", "asbuilt", "nulls_first_file", "wrong_fold", "rowcount_heuristic", "stale_cache"}
           AllowPartial = TRUE
           DoEmit = FALSE
           Strata <- StrataSmall
